@@ -17,13 +17,14 @@ func ParseValidNameKV(validName string) (key, value, cusMsg string) {
 	tmp := validName
 	// 因为 validName 中的 k, v 通过 = 连接
 	splitIndex := strings.Index(tmp, "=")
+	cusMsgIndex := strings.Index(tmp, "|")
 
 	// 如果没有则代表 validName 不为 k=v 类型, 只有一个字段如: required
-	if splitIndex == -1 {
+	// 如果 "|" 在 "=" 之前, 则 "=" 属于自定义 msg, 如: required|a=b
+	if splitIndex == -1 || (cusMsgIndex != -1 && cusMsgIndex < splitIndex) {
 		// 需要确定下是否包含自定义 msg, 格式为: validName|xxx, 如: required|必填
 		key = tmp
-		cusMsgIndex := strings.Index(tmp, "|")
-		if cusMsgIndex != -1 && len(tmp)-1 > cusMsgIndex+1 {
+		if cusMsgIndex != -1 && len(tmp) > cusMsgIndex+1 {
 			key = tmp[:cusMsgIndex]
 			cusMsg = tmp[cusMsgIndex+1:]
 			// 根据如果说明有中文就加前缀为: 说明; 否则为 Explain
@@ -39,8 +40,8 @@ func ParseValidNameKV(validName string) (key, value, cusMsg string) {
 	key = tmp[:splitIndex]
 	value = tmp[splitIndex+1:]
 	// 需要确定下是否包含自定义 msg, 格式为: validName|xxx, 如: "to=1~2|大于等于 1 且小于等于 2"
-	cusMsgIndex := strings.Index(value, "|")
-	if cusMsgIndex != -1 && len(value)-1 > cusMsgIndex+1 {
+	cusMsgIndex = strings.Index(value, "|")
+	if cusMsgIndex != -1 && len(value) > cusMsgIndex+1 {
 		// 根据如果说明有中文就加前缀为: 说明; 否则为 Explain
 		cusMsg = value[cusMsgIndex+1:]
 		if match := IncludeZhRe.MatchString(cusMsg); match {
